@@ -421,7 +421,7 @@ def merge_stats(stats_list):
 
 
 def save_replay(pid, src_file, seed, tag):
-    d = os.path.join(VERIF, "replays", "out", pid)
+    d = os.path.join(os.environ.get("VERIF_REPLAY_OUT") or os.path.join(VERIF, "replays", "out"), pid)
     os.makedirs(d, exist_ok=True)
     name = "%s-seed%s-%s.json" % (pid, seed, re.sub(r"[^A-Za-z0-9]+", "_", tag))
     dst = os.path.join(d, name)
@@ -460,8 +460,9 @@ def write_evidence(pid, prop, tier, seed, merged, wall, nviol, extra):
         "wall_s": round(wall, 2),
         "violations": nviol,
     }
-    os.makedirs(os.path.join(VERIF, "evidence"), exist_ok=True)
-    p = os.path.join(VERIF, "evidence", pid + ".json")
+    evdir = os.environ.get("VERIF_EVIDENCE_DIR") or os.path.join(VERIF, "evidence")
+    os.makedirs(evdir, exist_ok=True)
+    p = os.path.join(evdir, pid + ".json")
     tmp = p + ".tmp"
     json.dump(ev, open(tmp, "w"), indent=1)
     os.replace(tmp, p)
